@@ -35,6 +35,40 @@ impl Rec {
     }
 }
 
+/// human-readable dump of a sender log (VERIF_TRACE=1 on replay)
+pub fn dump(log: &[Rec]) -> String {
+    let mut o = String::new();
+    for (i, r) in log.iter().enumerate() {
+        let t = r.t.duration_since(t0()).map(|d| d.as_micros() as i128).unwrap_or_else(|e| -(e.duration().as_micros() as i128));
+        match &r.kind {
+            RecKind::Pkt { bytes, dec: Ok(d) } => o.push_str(&format!(
+                "#{:<4} t={:>10}us PKT toi={} {}sbn={} esi={} len={} B={} A={} fti={} cenc={:?} bytes={}\n",
+                i,
+                t,
+                d.lct.toi,
+                d.fdt.map(|f| format!("fdt-id={} ", f.1)).unwrap_or_default(),
+                d.pid.sbn,
+                d.pid.esi,
+                d.payload.len(),
+                d.lct.close_object as u8,
+                d.lct.close_session as u8,
+                d.fti.is_some(),
+                d.cenc,
+                bytes.len()
+            )),
+            RecKind::Pkt { dec: Err(e), .. } => o.push_str(&format!("#{:<4} t={:>10}us PKT undecodable: {}\n", i, t, e)),
+            RecKind::Start(toi) => o.push_str(&format!("#{:<4} t={:>10}us START toi={}\n", i, t, toi)),
+            RecKind::Stop(toi) => o.push_str(&format!("#{:<4} t={:>10}us STOP  toi={}\n", i, t, toi)),
+            RecKind::Op(s) => o.push_str(&format!("#{:<4} t={:>10}us OP    {}\n", i, t, s)),
+        }
+    }
+    o
+}
+
+pub fn trace_enabled() -> bool {
+    std::env::var("VERIF_TRACE").is_ok()
+}
+
 pub struct EventSink {
     pub q: Mutex<Vec<(SystemTime, Event)>>,
 }
